@@ -339,7 +339,7 @@ class Style:
             return ' '
         r = self.rng.random()
         if self.comments and r < 0.15:
-            return self.rng.choice([' /* c */ ', ' /* a\n b */ ', ' ; eol\n', '\n/**/\t'])
+            return self.rng.choice([' /* c */ ', ' /* a\n b */ ', ' ; eol\n', '\n/**/\t', ' /** doc **/ ', ' /***/ ', ' /* x **/ ', ' /* * / ** */ ', ' /****/ ', ' /* a */ /* b **/ '])
         return self.rng.choice([' ', '  ', '\t', '\n', ' \n ', ' '])
 
     def extra_parens(self):
